@@ -306,6 +306,37 @@ theorem c12_str_eq_tok_brace_free (cfg : Cfg) (ctx : Ctx) (h : StrOK cfg ctx) (r
          | .error e => .error e) :=
   (translate_print cfg ctx h reg hreg fuel ts hw).1
 
+/-- the registry of the string layer, lexed (what the driver hands to the token layer) -/
+def lexReg (cfg : Cfg) : Reg := cfg.templates.map (fun p => (p.1, lex cfg p.2))
+
+/-- CORE, the same for template STRINGS (the code's actual input): the lexer loses nothing (`print_lex`), so for every
+    text whose tokens are well formed — i.e. every `{` of the text starts a tag, names are words, defaults hold no
+    brace — and every registry of such texts, the string layer on the TEXT computes what the token layer computes on
+    its tokens.  This is exactly the comparison the driver makes on every generated case (`layers:agree`). -/
+theorem c12_str_eq_tok_on_strings (cfg : Cfg) (ctx : Ctx) (h : StrOK cfg ctx)
+    (hreg : ∀ p ∈ cfg.templates, ∀ t ∈ lex cfg p.2, t.wfs cfg) (fuel : Nat) (s : Str)
+    (hw : ∀ t ∈ lex cfg s, t.wfs cfg) :
+    translate cfg ctx fuel s
+      = (match renderTok cfg cfg.strict (lexReg cfg) ctx fuel (lex cfg s) with
+         | .ok (o, w) => .ok (printToks o, w)
+         | .error e => .error e) := by
+  have hro : RegOK cfg (lexReg cfg) := by
+    constructor
+    · simp only [lexReg, List.map_map]
+      conv => lhs; rw [← List.map_id cfg.templates]
+      apply List.map_congr_left
+      intro p _
+      simp [print_lex]
+    · intro n b hl
+      obtain ⟨k, hk⟩ := lookup_mem n (lexReg cfg) b hl
+      simp only [lexReg, List.mem_map] at hk
+      obtain ⟨p, hp, he⟩ := hk
+      simp only [Prod.mk.injEq] at he
+      rw [← he.2]
+      exact hreg p hp
+  have := c12_str_eq_tok_brace_free cfg ctx h (lexReg cfg) hro fuel (lex cfg s) hw
+  rwa [print_lex] at this
+
 /-- CORE, clause 1 for the layer that is tied to the code.  For every grammar template (non-nested blocks, any includes,
     any depth) whose tokens are well formed, and every context / environment in which nothing spliced in contains `{`:
     the STRING layer — the four regex passes over text, as the code runs them — renders exactly the text of ONE
@@ -427,6 +458,16 @@ example : StrOK eCfgS eCtx ∧ RegOK eCfgS (tokReg eReg) ∧ (∀ t ∈ eToks, t
     (translate eCfgS eCtx 3 (printToks eToks)).toOption
       = (renderTok eCfgS false (tokReg eReg) eCtx 3 eToks).toOption.map (fun r => (printToks r.1, r.2)) :=
   ⟨eStrOK, eRegOK, wfs_all_of_bool (by decide), by decide⟩
+
+/-- hypotheses of `c12_str_eq_tok_on_strings` on concrete data: the TEXT `x{{?a}}{{a}}{{a|up}}…` lexes into well-formed
+    tokens (it is the printed form of `eToks`, and lexing it gives the same tokens back with adjacent text coalesced) -/
+example : (∀ p ∈ eCfgS.templates, ∀ t ∈ lex eCfgS p.2, t.wfs eCfgS) ∧ (∀ t ∈ lex eCfgS (printToks eToks), t.wfs eCfgS) ∧
+    lex eCfgS (printToks eToks) = eToks := by
+  refine ⟨?_, wfs_all_of_bool (by decide), by decide⟩
+  intro p hp
+  simp only [eCfgS, tokReg, eReg, List.map, List.mem_cons, List.not_mem_nil, or_false] at hp
+  subst hp
+  exact wfs_all_of_bool (by decide)
 
 /-- the hypotheses of `c12_str_eq_spec_brace_free_values` hold for the template with every kind of construct, and the
     string layer renders `U` `p{{k}}0;` `qv1;` `<x{{zz}}>` `[?nope]` `dflt` -/
